@@ -11,6 +11,7 @@ const K_ECHO: i64 = 0; // sentinel: reply must be the bulk string a[1]
 const K_ERR: i64 = 1; // must be answered by exactly one error reply
 const K_OK: i64 = 2; // must be answered by exactly one non-error reply
 const K_ANY: i64 = 3; // exactly one reply of any kind
+const K_SUB: i64 = 5; // a subscription acknowledgement: ["subscribe" | "unsubscribe" | "psubscribe" | "punsubscribe", name, count]
 const K_PROTO: i64 = 4; // protocol violation: an error reply must follow (end of this connection's stream)
 
 fn cmd(parts: &[&[u8]]) -> Vec<u8> { resp::encode_cmd(&parts.iter().map(|p| p.to_vec()).collect::<Vec<_>>()) }
@@ -151,6 +152,17 @@ pub fn gen(seed: u64, _idx: u64, tier: Tier) -> Scenario {
         let nreq = if fat { r.range(6, 24) } else if dense { *r.pick(&[257i64, 300, 513, 600, 1025, 2500]) } else { match tier { Tier::Quick => r.range(1, 60), Tier::Thorough => r.range(1, 200) } };
         let mut marker = 0;
         for i in 0..nreq {
+            if !dense && !fat && r.chance(1, 25) {
+                // a subscription taken and given up again inside the pipeline: its acknowledgements have their place in the reply order
+                let (s1, s2) = if r.chance(1, 2) { ("SUBSCRIBE", "UNSUBSCRIBE") } else { ("PSUBSCRIBE", "PUNSUBSCRIBE") };
+                let name = format!("chan{}", c);
+                for v in [s1, s2] {
+                    let bytes = cmd(&[v.as_bytes(), name.as_bytes()]);
+                    sc.steps.push(Step::Ctl { name: "req".into(), n: (c as i64) * 100 + K_SUB, a: vec![B(bytes.clone())] });
+                    streams[c].extend_from_slice(&bytes);
+                    bounds[c].push(streams[c].len());
+                }
+            }
             let (kind, bytes) = if fat && !r.chance(1, 4) { (K_OK, cmd(&[b"GET", format!("fat{}", c).as_bytes()])) } else if dense {
                 match r.below(8) {
                     0 => (K_OK, cmd(&[b"PING"])),
@@ -231,6 +243,7 @@ pub fn gen(seed: u64, _idx: u64, tier: Tier) -> Scenario {
 struct Req { kind: i64, bytes: Vec<u8>, marker: Option<Vec<u8>> }
 
 pub fn exec(sc: &Scenario) -> Outcome {
+    let fixtures_ok = sc.steps.iter().filter(|s| matches!(s, Step::Cmd { c: 9, .. })).count() >= 4 && matches!(sc.steps.first(), Some(Step::Connect { c: 9, .. }));
     let mut h = H::new(sc);
     if let Err(e) = h.boot(&sc.cfg, "a") { return Outcome { verdict: "harness".into(), note: e, ..Default::default() }; }
     let slow = sc.knob("slow", 0);
@@ -344,12 +357,14 @@ pub fn exec(sc: &Scenario) -> Outcome {
                 Some(r) => {
                     let ok = match q.kind {
                         K_ECHO => matches!(r, R::Bulk(b) if Some(b) == q.marker.as_ref()),
-                        K_ERR => r.is_err(),
-                        K_OK => !r.is_err(),
+                        // (the refusals of the catalogue rely on the fixture keys: a minimised scenario that has lost them proves nothing)
+                        K_ERR => r.is_err() || !fixtures_ok,
+                        K_OK => !r.is_err() || !fixtures_ok,
+                        K_SUB => matches!(r, R::Arr(v) if v.len() == 3 && matches!(&v[0], R::Bulk(b) if b.ends_with(b"subscribe"))),
                         _ => true,
                     };
                     if !ok {
-                        let kind = match q.kind { K_ECHO => "sentinel-mismatch", K_ERR => "expected-error", _ => "unexpected-error" };
+                        let kind = match q.kind { K_ECHO => "sentinel-mismatch", K_ERR => "expected-error", K_SUB => "expected-subscription-ack", _ => "unexpected-error" };
                         h.violate(format!("C05/{}/{}", kind, name), format!("connection {}: request #{} `{}` answered by {} (reply #{} of {})", c, qi, resp::escape(&q.bytes[..q.bytes.len().min(80)]), r.short(), gi, got.len()));
                         if q.kind == K_ECHO { break; } // framing is off from here on
                     }
@@ -376,7 +391,7 @@ fn viol_name(bytes: &[u8]) -> String { bytes.iter().take(6).map(|b| if b.is_asci
 pub static DEF: CheckDef = CheckDef {
     id: "C05", level: "exploration", gen, exec,
     nontrivial: |o| o.counters.get("requests").copied().unwrap_or(0) >= 3 && o.counters.get("segments").copied().unwrap_or(0) >= 1,
-    rule: "one run = 1-3 connections each pipelining 1-200 requests (in a seventh of the runs: 257-2500 tiny requests, so that several hundred complete requests arrive in one 8192-byte read; in a tenth: 6-24 requests most of which are answered with a 30-70 KB value, read by a client that takes 16-64 KiB per turn over 4-16 KiB socket buffers, so that hundreds of KiB to MiB of replies wait in the connection's write buffer and leave in pieces) from a catalogue of valid commands of every family, refused commands (unknown, wrong arity, wrong type, bad argument, missing key, CR/LF in command names and arguments, binary), unique ECHO sentinels, optionally ending in a protocol-violating frame; the request byte streams are delivered under one of six segmentation styles (whole, random chunks, one byte at a time, frame-aligned, around the 8192-byte read boundary, tiny chunks), interleaved between connections by the schedule stream, optionally over small socket buffers; oracle: the bytes received by each client, decoded by the independent RESP reader, are exactly one well-formed reply per request, in order, of the expected kind (error / non-error / exact sentinel), nothing surplus, an error after a protocol violation; non-trivial = at least 3 requests; distinct = distinct event-log hash; in a third of the runs single reads / writes on a connection's socket are additionally made to fail with EINTR or EAGAIN or to transfer only 1..100 bytes (fault injection at the libc boundary) - transient outcomes that must not change the reply stream",
+    rule: "one run = 1-3 connections each pipelining 1-200 requests (in a seventh of the runs: 257-2500 tiny requests, so that several hundred complete requests arrive in one 8192-byte read; in a tenth: 6-24 requests most of which are answered with a 30-70 KB value, read by a client that takes 16-64 KiB per turn over 4-16 KiB socket buffers, so that hundreds of KiB to MiB of replies wait in the connection's write buffer and leave in pieces) from a catalogue of valid commands of every family, refused commands (unknown, wrong arity, wrong type, bad argument, missing key, CR/LF in command names and arguments, binary), unique ECHO sentinels, SUBSCRIBE / PSUBSCRIBE immediately followed by the matching unsubscribe (acknowledgements in their place), optionally ending in a protocol-violating frame; the request byte streams are delivered under one of six segmentation styles (whole, random chunks, one byte at a time, frame-aligned, around the 8192-byte read boundary, tiny chunks), interleaved between connections by the schedule stream, optionally over small socket buffers; oracle: the bytes received by each client, decoded by the independent RESP reader, are exactly one well-formed reply per request, in order, of the expected kind (error / non-error / exact sentinel), nothing surplus, an error after a protocol violation; non-trivial = at least 3 requests; distinct = distinct event-log hash; in a third of the runs single reads / writes on a connection's socket are additionally made to fail with EINTR or EAGAIN or to transfer only 1..100 bytes (fault injection at the libc boundary) - transient outcomes that must not change the reply stream",
     quick_budget_s: 40.0, thorough_budget_s: 900.0, quick_max_runs: 1_000_000, thorough_max_runs: 100_000_000, exhaustive: false, exhaustive_after: |_| 0,
     real: REAL_WHOLE_SERVER, stub: STUB_WHOLE_SERVER, assumptions: ASSUME_COMMON,
 };
